@@ -107,7 +107,7 @@ NTI10 = int(os.environ.get("VQ_NTI10", "2"))
 WORDS10 = ["follow-up", "bob", "meet", "Q3"][:NW10]
 TAGS10 = ["#a", "#ab", "#x-y", "#tag_1"][:NT10]
 SEPS10 = [" ", ", ", ") ", "  ", " (", "; "][:NS10]
-TIME10 = ["tomorrow", "friday 8pm", "12.03.2021"][:NTI10]
+TIME10 = ["friday 8pm", "tomorrow", "12.03.2021"][:NTI10]
 
 
 def subject_check(parts, tpos, ti, ts):
@@ -175,13 +175,13 @@ SEPVARS = [", ", "\x00", " (", "\t", "\u00a0", "  ", " ; ", ") ", "\u2003", "\x7
 DASHES = ["-", "–", "—", "‐", "−" if False else "―", "⁃"]
 CASES = [str.lower, str.upper, str.title]
 EXPRS11 = ["tomorrow 8pm", "friday morning", "monday 10:00 - 12:00", "march 3rd 2020", "heute abend", "9 - 5", "on the 31st",
-           "12.03.2021 um 9 uhr", "saturday - sunday", "3 days"]
+           "12.03.2021 um 9 uhr", "saturday - sunday", "3 days", "übermorgen", "5. märz 2020", "nächsten freitag", "tomorrow #standup-9am"]
 NE11 = len(EXPRS11)
 
 
 def norm_check(expr, sep, dash, case, lead, trail, ts):
     base = _parse(expr, ts)
-    v = case(expr).replace(" - ", " " + dash + " ").replace(" ", sep)
+    v = case(expr).replace(" - ", " " + dash + " ").replace("#standup-", "#standup" + dash).replace("#STANDUP-", "#STANDUP" + dash).replace("#Standup-", "#Standup" + dash).replace(" ", sep)
     v = lead + v + trail
     var = _parse(v, ts)
     if _val(var.resolution) != _val(base.resolution):
@@ -204,7 +204,7 @@ def ob_norm(ei: int, si: int, di: int, ci: int, ends: bool) -> bool:
     with NoTracing():
         e = EXPRS11[_pick(ei, NE11)]
         s_ = _pick(si, NSEP11)
-        d_ = _pick(di, NDASH11) if " - " in e else 0
+        d_ = _pick(di, NDASH11) if "-" in e else 0
         en = bool(_pick(ends, 2))
         return norm_check(e, SEPVARS[s_], DASHES[d_], CASES[_pick(ci, 3)], SEPVARS[s_] if en and SEPVARS[s_] != " " else "",
                           SEPVARS[s_] if en and SEPVARS[s_] != " " else "", TSS[0])[0]
@@ -212,6 +212,6 @@ def ob_norm(ei: int, si: int, di: int, ci: int, ends: bool) -> bool:
 
 def why_norm(ei, si, di, ci, ends):
     e = EXPRS11[ei]
-    d_ = di if " - " in e else 0
+    d_ = di if "-" in e else 0
     x = SEPVARS[si] if ends and SEPVARS[si] != " " else ""
     return norm_check(e, SEPVARS[si], DASHES[d_], CASES[ci], x, x, TSS[0])[1]
